@@ -10,12 +10,17 @@
                    the blocking peers, the sleep, the self-touch;
   * `kaSleep(T)` = the keep-alive period `max(1, min(L, max(1, L − randint(5,10))))`, `L/2` for `L = 1`;
   * `touchVal`   = what `touch()` writes (`None` when the record would be dead at once: lifetime ≤ 0);
-  * `step`       = the shared peering object + operators as a labelled transition system. `deliver i` hands operator i
-                   the CURRENT status (an idealisation: the code always sees a somewhat older one), `deliverStale i view` an
-                   older view whose `clean()` lands on the current status (findings F4, F5); `exit` is the proper order of a
-                   graceful stop, `exitBegin`/`exitEnd` the order the code has (withdrawal first, handling stops last: F7),
-                   `exitLost` a withdrawal the API refused; `wake` = the sleeping call wakes and its self-touch lands at once,
-                   `wakeIssue` … `land` the same with the request in flight for a while (it may land after the withdrawal: F9).
+  * `step`       = the shared peering object (status + its VERSION, `ver` = `metadata.resourceVersion`) + operators as a
+                   labelled transition system. `deliver i` hands operator i the CURRENT status (an idealisation: the code
+                   always sees a somewhat older one), `deliverStale i view vv` a view taken at version `vv`: its verdict is
+                   computed from the view, its `clean()` carries `resourceVersion = vv` and the API applies it only if the
+                   object is still at `vv` (else 409 Conflict, ignored by `clean()`; since 054d47d). A graceful stop
+                   (since 26a293c) is `exitBegin` (watchers and the peering observer are stopped: queues deplete, handlers
+                   finish; the PINGER GOES ON renewing the record) … `exitEnd` (the pinger's `finally` withdraws the record, the
+                   process is gone); `exit` is the two at once; `exitLost` a withdrawal the API refused; `wake` = the sleeping
+                   call wakes and its self-touch lands at once, `wakeIssue` … `land` the same with the request in flight for a
+                   while (the observer is stopped before the withdrawal: a self-touch still in flight then has been awaited
+                   - `land` - or cancelled - dropped by `exitEnd`).
 
   Time: `Tick = Int`; `u` = ticks per second (the harness uses 64); lifetimes are whole seconds.
 -/
@@ -300,31 +305,34 @@ structure Op where
   lifetime : Int
   alive : Bool
   paused : Bool
-  seen : Option (Nat × Int)   -- version of the status last processed AS THE CURRENT ONE, and when (`none` after a stale view)
+  seen : Option (Nat × Int)   -- version of the status whose VERDICT the operator holds, and when it got it (`none` after a
+                              --   view whose verdict differs from the current status')
   sleeping : Bool := false    -- a `process_peering_event` call sleeps towards a deadline and will self-touch on waking
   nextKA : Option Int := none -- ghost: the latest moment the pinger starts its next `touch()` (last landing + longest sleep)
-  exiting : Bool := false     -- asked to stop: pinger and peering observer are gone, the resource watchers still deplete
+  exiting : Bool := false     -- asked to stop: the resource watchers and the peering observer are stopping (queues deplete,
+                              --   handlers finish, ≤ queueing.exit_timeout); the pinger still renews the record
   inflight : Option Int := none -- a self-touch of a `process_peering_event` call, ISSUED (stamped then), not yet applied by the API
   deriving Repr, DecidableEq
 
 structure State where
   now : Int
-  ver : Nat                    -- bumped by every write to the status
+  ver : Nat                    -- `metadata.resourceVersion` of the peering object: bumped by every write to it
   status : Status
   ops : Identity → Option Op
 
 inductive Label where
   | start (i : Identity) (prio lifetime : Int)   -- a process starts (mandatory peering: pre-paused)
   | keepalive (i : Identity) (lag : Nat)         -- the pinger's `touch()` lands; the record was stamped `lag` ticks ago
-  | exit (i : Identity)                          -- graceful: `touch(lifetime=0)` lands, then gone
+  | exit (i : Identity)                          -- graceful, nothing in between: handling stopped, `touch(lifetime=0)` lands, gone
   | exitLost (i : Identity)                      -- graceful, but the withdrawal PATCH fails for good (logged and ignored)
-  | exitBegin (i : Identity)                     -- what the code does FIRST on a graceful stop: the withdrawal lands,
-                                                 --   while the operator goes on handling (queues deplete, ≤ exit_timeout)
-  | exitEnd (i : Identity)                       -- ... and LAST: the handling has stopped, the process is gone
+  | exitBegin (i : Identity)                     -- what the code does FIRST on a graceful stop: watchers and peering observer
+                                                 --   are stopped (queues deplete, handlers finish); the pinger goes on
+  | exitEnd (i : Identity)                       -- ... and LAST: the pinger is stopped, the withdrawal lands, the process is gone
   | kill (i : Identity)                          -- the process disappears, its record stays
   | deliver (i : Identity)                       -- operator i processes the CURRENT status; its clean lands at once
-  | deliverStale (i : Identity) (view : Status)  -- operator i processes an OLDER view (a late or merely in-flight event)
-                                                 --   at the current clock; its `clean()` lands on the CURRENT status
+  | deliverStale (i : Identity) (view : Status) (vv : Nat)
+                                                 -- operator i processes the view it got at version `vv` (a late or merely
+                                                 --   in-flight event) at the current clock; its `clean()` names `vv`
   | tick (d : Nat)                               -- time passes
   | expire (j : Identity)                        -- time passes up to the latest deadline of j's record(s)
   | foreign (j : Identity) (r : Option Rec)      -- anybody else writes / removes a record
@@ -341,13 +349,23 @@ def init : State := { now := 0, ver := 0, status := [], ops := fun _ => none }
 def latestDeadline (u : Int) (st : Status) (j : Identity) (now : Int) : Int :=
   (st.filter (fun e => e.1 == j)).foldl (fun m e => max m (e.2.deadline u)) now
 
-/-- An older view that is harmless: judged at the operator's clock it blocks the operator exactly as the current status
-    does, and cleaning by the identities that are dead in the view removes from the current status exactly its dead records
-    of others (nobody renewed, restarted or wrote under those identities in between). -/
-def benignView (u : Int) (s : State) (i : Identity) (prio : Int) (view : Status) : Bool :=
-  (blockedB u view i prio s.now == blockedB u s.status i prio s.now) &&
-  decide (s.status.eraseAll ((deadPeers u s.now i view.peers).map (·.id)) =
-          s.status.filter (fun e => !(e.2.dead u s.now && e.1 != i)))
+/-- An older view whose VERDICT is right: judged at the operator's clock it blocks the operator exactly as the current
+    status does. (What it would clean does not matter any more: a clean from an older version is refused.) -/
+def sameVerdict (u : Int) (s : State) (i : Identity) (prio : Int) (view : Status) : Bool :=
+  blockedB u view i prio s.now == blockedB u s.status i prio s.now
+
+/-- operator `i` (entry `o`) processes the CURRENT status: verdict, toggle, and its `clean()` - which names the current
+    version - lands at once: the dead records of others go (for a JSON object - unique keys - removing by identity is
+    removing those records). -/
+def deliverNow (u : Int) (s : State) (i : Identity) (o : Op) : State :=
+  let d := decideCore u s.status.peers i o.prio true (some o.paused) s.now s.now
+  let st' := s.status.filter (fun e => !(e.2.dead u s.now && e.1 != i))
+  { s with
+    ver := if st' = s.status then s.ver else s.ver + 1      -- a patch that changes nothing makes no new version
+    status := st'
+    -- a new event interrupts the previous sleep (no touch); this call sleeps iff somebody blocks it
+    ops := updOp s.ops i { o with paused := d.paused.getD o.paused, seen := some (s.ver, s.now),
+                                  sleeping := d.touch } }
 
 def step (u : Int) (s : State) : Label → Option State
   | .start i prio lifetime =>
@@ -356,37 +374,45 @@ def step (u : Int) (s : State) : Label → Option State
         some { s with ops := updOp s.ops i { prio, lifetime, alive := true, paused := true, seen := none } }
     | none => some { s with ops := updOp s.ops i { prio, lifetime, alive := true, paused := true, seen := none } }
   | .keepalive i lag =>
+    -- the pinger runs until the very end of a graceful stop (it is stopped LAST): also while `exiting`
     match s.ops i with
-    | some o => if o.alive && !o.exiting then
+    | some o => if o.alive then
         some { s with ver := s.ver + 1, status := s.status.patch i (touchVal u o.prio o.lifetime (s.now - lag)),
                       ops := updOp s.ops i { o with nextKA := some (s.now + (o.lifetime * u - marginT u o.lifetime)) } }
       else none
     | none => none
   | .exit i =>
-    -- the order a graceful stop OUGHT to have (and has with proposals/fix-C13F7): handling stopped, then the withdrawal
+    -- a graceful stop with nothing in between (`exitBegin` then `exitEnd`: `exit_two_phase`)
     match s.ops i with
     | some o => if o.alive && !o.exiting then
         some { s with ver := s.ver + 1, status := s.status.patch i (touchVal u o.prio 0 s.now),
-                      -- `_wait_for_depletion` sets the stream pressure: the sleeping call returns without touching
-                      ops := updOp s.ops i { o with alive := false, sleeping := false, nextKA := none } }
+                      -- `_wait_for_depletion` sets the stream pressure: the sleeping call returns without touching; the
+                      -- observer is stopped before the pinger: a self-touch of it is over or cancelled by now
+                      ops := updOp s.ops i { o with alive := false, sleeping := false, nextKA := none, inflight := none } }
       else none
     | none => none
   | .exitLost i =>
-    -- `keepalive`'s `finally` swallows every error of the withdrawal: the operator is gone, the record stays (= `kill`)
+    -- `keepalive`'s `finally` swallows every error of the withdrawal: the operator is gone, the record stays (= `kill`;
+    -- that a self-touch may still be in flight is an over-approximation here: the observer was stopped in order)
     match s.ops i with
     | some o => if o.alive then some { s with ops := updOp s.ops i { o with alive := false, sleeping := false } } else none
     | none => none
   | .exitBegin i =>
+    -- the orchestrator stops the watchers and the peering observer (`_wait_for_depletion` sets the stream pressure: a call
+    -- sleeping towards a deadline returns without touching); the record STAYS and is renewed: the pinger is stopped last
     match s.ops i with
     | some o => if o.alive && !o.exiting then
-        some { s with ver := s.ver + 1, status := s.status.patch i (touchVal u o.prio 0 s.now),
-                      ops := updOp s.ops i { o with exiting := true, sleeping := false, nextKA := none } }
+        some { s with ops := updOp s.ops i { o with exiting := true, sleeping := false } }
       else none
     | none => none
   | .exitEnd i =>
+    -- the watchers and the observer are over (a self-touch of the observer still in flight was awaited - `land` before
+    -- this step - or cancelled with it: dropped); now the pinger's `finally` withdraws the record
     match s.ops i with
     | some o => if o.alive && o.exiting then
-        some { s with ops := updOp s.ops i { o with alive := false, exiting := false, sleeping := false } }
+        some { s with ver := s.ver + 1, status := s.status.patch i (touchVal u o.prio 0 s.now),
+                      ops := updOp s.ops i { o with alive := false, exiting := false, sleeping := false, nextKA := none,
+                                                    inflight := none } }
       else none
     | none => none
   | .kill i =>
@@ -395,37 +421,27 @@ def step (u : Int) (s : State) : Label → Option State
     | none => none
   | .deliver i =>
     match s.ops i with
-    | some o => if o.alive && !o.exiting then
-        let d := decideCore u s.status.peers i o.prio true (some o.paused) s.now s.now
-        let st' := s.status.filter (fun e => !(e.2.dead u s.now && e.1 != i))
-        some { s with
-          ver := if st' = s.status then s.ver else s.ver + 1      -- a patch that changes nothing makes no new version
-          status := st'
-          -- a new event interrupts the previous sleep (no touch); this call sleeps iff somebody blocks it
-          ops := updOp s.ops i { o with paused := d.paused.getD o.paused, seen := some (s.ver, s.now),
-                                        sleeping := d.touch } }
-      else none
+    | some o => if o.alive && !o.exiting then some (deliverNow u s i o) else none
     | none => none
-  | .deliverStale i view =>
-    -- the verdict (who is dead, who blocks) is computed from `view` against the operator's OWN clock; `clean()` is an
-    -- unconditional merge-patch `{identity: None}`: it removes whatever the CURRENT status holds under those identities
+  | .deliverStale i view vv =>
+    -- the verdict (who is dead, who blocks) is computed from `view` against the operator's OWN clock; `clean()` sends
+    -- `{status: {identity: None …}, metadata: {resourceVersion: vv}}`: applied iff the object is still at version `vv` -
+    -- and then the view IS the current status (a version identifies a content) -, refused with 409 otherwise (ignored)
     match s.ops i with
     | some o => if o.alive && !o.exiting then
-        let d := decideCore u view.peers i o.prio true (some o.paused) s.now s.now
-        let st' := s.status.eraseAll d.cleaned
-        some { s with
-          ver := if st' = s.status then s.ver else s.ver + 1
-          status := st'
-          -- the view is as good as the current status when it yields the same verdict and the same cleaning
-          ops := updOp s.ops i { o with paused := d.paused.getD o.paused, sleeping := d.touch,
-                                        seen := if benignView u s i o.prio view then some (s.ver, s.now) else none } }
+        if vv = s.ver then (if view = s.status then some (deliverNow u s i o) else none)
+        else
+          let d := decideCore u view.peers i o.prio true (some o.paused) s.now s.now
+          some { s with
+            ops := updOp s.ops i { o with paused := d.paused.getD o.paused, sleeping := d.touch,
+                                          seen := if sameVerdict u s i o.prio view then some (s.ver, s.now) else none } }
       else none
     | none => none
   | .tick d => some { s with now := s.now + d }
   | .expire j => some { s with now := latestDeadline u s.status j s.now }
   | .foreign j r => some { s with ver := s.ver + 1, status := s.status.patch j r }
   | .wake i lag =>
-    -- guarded by `sleeping` only: both ways out (`exit`, `kill`) end the sleeping call without a touch.
+    -- guarded by `sleeping` only: all ways out (`exitBegin`, `exit`, `kill`) end the sleeping call without a touch.
     match s.ops i with
     | some o => if o.sleeping then
         some { s with ver := s.ver + 1, status := s.status.patch i (touchVal u o.prio o.lifetime (s.now - lag)),
@@ -433,7 +449,7 @@ def step (u : Int) (s : State) : Label → Option State
       else none
     | none => none
   | .wakeIssue i =>
-    -- the PATCH is on its way; nothing the operator does afterwards (stop, kill) takes it back
+    -- the PATCH is on its way; a kill does not take it back, a graceful stop awaits or cancels it before the withdrawal
     match s.ops i with
     | some o => if o.sleeping && o.inflight.isNone then
         some { s with ops := updOp s.ops i { o with sleeping := false, inflight := some s.now } }
@@ -478,12 +494,12 @@ def ExactlyTop (s : State) : Prop :=
   ∀ i op, s.ops i = some op → op.alive = true →
     (op.paused = false ↔ ∀ j oj, s.ops j = some oj → oj.alive = true → oj.prio ≤ op.prio)
 
-/-- What the environment may do in a *timely, current-view* run, every `touch()` call taking at most `B` ticks:
+/-- What the environment may do in a *timely* run, every `touch()` call taking at most `B` ticks:
     operators are configured with `lifetime ≥ 1` and `2·B <` their margin; a record lands at most `B` ticks after it was
     stamped; time does not pass beyond the moment the pinger's next `touch()` must have landed (`nextKA + B`: the pinger
     sleeps at most `lifetime − margin` after the previous landing, `asyncio.sleep` wakes it on time, the call takes ≤ B);
-    nobody else writes under an operator's identity; and an operator acts on an older view (`deliverStale`) only if it is
-    benign (`benignView`: same verdict and same cleaning as the current status would give). -/
+    nobody else writes under an operator's identity. Views may be of ANY age (`deliverStale` is unrestricted: a clean from
+    an older version is refused), graceful stops take their two steps with anything in between. -/
 def Allowed (u B : Int) (s : State) : Label → Prop
   | .start _ _ L => 1 ≤ L ∧ 2 * B < marginT u L
   | .keepalive _ lag => (lag : Int) ≤ B
@@ -491,39 +507,22 @@ def Allowed (u B : Int) (s : State) : Label → Prop
   | .tick d => ∀ i o k, s.ops i = some o → o.alive = true → o.nextKA = some k → s.now + d ≤ k + B
   | .expire j => ∀ i o k, s.ops i = some o → o.alive = true → o.nextKA = some k →
       latestDeadline u s.status j s.now ≤ k + B
-  | .deliverStale i view => ∀ o, s.ops i = some o → benignView u s i o.prio view = true   -- old views only if benign
-  | .exitBegin _ => False          -- timely runs exit in the proper order (`exit`)
-  | .wakeIssue _ => False          -- … and their self-touches land at once (`wake`)
+  | .wakeIssue _ => False          -- the self-touches of timely runs land within B: `wake i lag`
   | .land _ => False
   | .foreign j _ => s.ops j = none
   | _ => True
 
-/-- states reachable by timely, current-view runs -/
+/-- states reachable by timely runs -/
 inductive Timely (u B : Int) : State → Prop where
   | init : Timely u B init
   | step {s s' : State} (l : Label) : Timely u B s → Allowed u B s l → step u s l = some s' → Timely u B s'
 
-/-- What may happen between a loss / an exit and the settling (guard of the failover theorems): time passes; the running
-    operators renew, their sleeping calls wake and self-touch, they process the CURRENT status. Not in it: starts, stops,
-    kills, foreign writes, older views (`deliverStale`; a benign one is a `deliver`: `benign_stale_eq_deliver`). -/
+/-- What may happen between a loss / an exit and the settling: time passes; the running operators renew, their sleeping
+    calls wake and self-touch, they process the current status OR ANY OLDER VIEW (whose clean is refused). Not in it: starts,
+    stops, kills, foreign writes, self-touches in two steps (`wakeIssue` … `land`). -/
 def Quiet : Label → Prop
-  | .tick _ | .expire _ | .keepalive _ _ | .wake _ _ | .deliver _ => True
+  | .tick _ | .expire _ | .keepalive _ _ | .wake _ _ | .deliver _ | .deliverStale _ _ _ => True
   | _ => False
-
-/-- the same label with the view replaced by the current status -/
-def Label.current : Label → Label
-  | .deliverStale i _ => .deliver i
-  | l => l
-
-/-- every older view processed along the run `ls` from `s` is benign (`benignView`, judged in the state where it is
-    processed); nothing is asked of the other labels -/
-def benignRun (u : Int) : State → List Label → Bool
-  | _, [] => true
-  | s, l :: ls =>
-    (match l with
-     | .deliverStale i view => (match s.ops i with | some o => benignView u s i o.prio view | none => true)
-     | _ => true) &&
-    (match step u s l with | some s1 => benignRun u s1 ls | none => true)
 
 /-- a sleeping `process_peering_event` call belongs to a running operator (an invariant of every reachable state:
     `sleepAlive_reachable`; stated as a hypothesis where a theorem starts from an arbitrary state) -/
